@@ -78,8 +78,8 @@ pub fn run(ops: &str, out: &mut impl Write, orc: &mut impl Write) {
                 let got: Option<Result<PDU, std::io::Error>> = tokio::time::timeout(Duration::from_secs(30), rx.receive()).await.ok();
                 let res: Option<PDU> = match got {
                     Some(Ok(p)) => Some(p),
-                    Some(Err(e)) if e.kind() == std::io::ErrorKind::InvalidData => None,
-                    Some(Err(e)) => panic!("udp: socket error {e}"),
+                    // the transport's pdu_handler logs any error of receive() and goes on: a rejection
+                    Some(Err(_)) => None,
                     None => panic!("udp: datagram {i} of case {id} never arrived on loopback"),
                 };
                 writeln!(out, "{}", fmt_res(&res)).unwrap();
